@@ -9,7 +9,7 @@
 (* so that every event is judged); the driver requires that the number of  *)
 (* distinct states equals 1 + K + N, i.e. that every event was evaluated.  *)
 (***************************************************************************)
-EXTENDS TomlLex, Json, IOUtils, SequencesExt
+EXTENDS TomlPrint, Json, IOUtils
 
 Ev == ndJsonDeserialize(IOEnv.TRACE)
 N == Len(Ev)
@@ -92,12 +92,34 @@ CheckLabel(i) ==
   IN IF (e.lab = "valid" /\ p.res = "ok") \/ (e.lab = "invalid" /\ p.res = "rej") THEN TRUE
      ELSE Report(i, "label", [lab |-> e.lab, spec |-> p.res, why |-> p.why, at |-> p.at]) /\ FALSE
 
+\* roundtrip (C03): text, r = <<[fe, res, out, out2]...>>; out = print(parse(text)), out2 = print(parse(out))
+CheckRoundtrip(i) ==
+  LET e == Ev[i]
+      p == ParseDocument(e.text)
+  IN IF p.res # "ok" THEN TRUE
+     ELSE \A g \in 1..Len(e.r) :
+       LET r == e.r[g] IN
+       IF r.res = "err" THEN TRUE      \* a valid text that is refused is a C01 matter
+       ELSE IF r.res # "ok" THEN Report(i, "rt-panic", r.fe) /\ FALSE
+       ELSE LET q == ParseDocument(r.out)
+                n == Norm(e.text, p)
+            IN /\ IF q.res = "ok" THEN TRUE ELSE Report(i, "rt-invalid", [fe |-> r.fe, why |-> q.why, at |-> q.at]) /\ FALSE
+               /\ q.res = "ok" =>
+                    /\ IF Plain(q.tree) = Plain(p.tree) THEN TRUE ELSE Report(i, "rt-data", [fe |-> r.fe]) /\ FALSE
+                    /\ IF AllKept(Comments(e.text, p), Comments(r.out, q)) THEN TRUE ELSE Report(i, "rt-comment", [fe |-> r.fe]) /\ FALSE
+                    /\ IF r.out2 = r.out THEN TRUE ELSE Report(i, "rt-fixpoint", [fe |-> r.fe]) /\ FALSE
+                    /\ IF Interleaved(p.stmts) \/ r.out = n THEN TRUE
+                       ELSE IF HasRepeatedSegment(p.stmts) /\ SameUpToKeySpelling(n, ParseDocument(n), r.out, q)
+                            THEN Report(i, "rt-respelled", [fe |-> r.fe, expected |-> n]) /\ FALSE
+                            ELSE Report(i, "rt-exact", [fe |-> r.fe, expected |-> n]) /\ FALSE
+
 U1Note(i) == Ev[i].ev = "parse" /\ ParseDocument(Ev[i].text).res = "u1" => PrintT(ToJson([u1 |-> i]))
 
 CheckEvent(i) ==
   CASE Ev[i].ev = "parse" -> CheckParse(i) /\ U1Note(i)
     [] Ev[i].ev = "parse_bytes" -> CheckParseBytes(i)
     [] Ev[i].ev = "label" -> CheckLabel(i)
+    [] Ev[i].ev = "roundtrip" -> CheckRoundtrip(i)
     [] OTHER -> Report(i, "unknown-event", Ev[i].ev) /\ FALSE
 
 Init == lvl = 0 /\ idx = 0
